@@ -653,6 +653,16 @@ def _execute(scn, scared):
                                  'run %d: maxdiff=%s got=%s want=%s; batch lengths %s' % (j, compare.maxdiff(att.results, ref.results), compare.describe(att.results),
                                                                                         compare.describe(ref.results), [len(u[0]) for u in rec.updates]))
                 break
+            if scn['kind'] in ('anova', 'nicv', 'snr'):
+                # (2b) the documented accumulators (sum, sum_square, counters per (sample, data word, class)) against their definition, computed with
+                # plain numpy from the expected rows: independent of anything cached or shared inside scared (a poisoned value->class lookup is
+                # wrong in the twin as well).  Exact regime: integer sums, compared exactly.  Layout not as documented -> not observable, no alarm.
+                d = _partitioned_accumulators_mismatch(att, EE, DD)
+                if d == 'unobservable':
+                    probe('accumulators_unobservable')
+                elif d:
+                    violation = viol('accumulators_differ_from_definition', [prop, 'accumulators_differ_from_definition', scn['kind'], scn['mode']], 'run %d: %s' % (j, d))
+                    break
             if scn['mode'] == 'attack':
                 # (3) scores == discriminant(results)
                 want = getattr(scared, scn['discriminant'])(att.results)
@@ -686,6 +696,32 @@ def _execute(scn, scared):
     return {'violation': violation, 'inconclusive': inconclusive, 'digest': rng.digest([storage.events, lens]), 'case': case,
             'nontrivial': len(lens) > len(sets) if prop != 'C08' else (cols_after_run[-1] >= 2 if cols_after_run else False),
             'faults': faults, 'probes': probes, 'sim_time': storage.seq, 'counts': {'updates': len(lens), 'storage_fetches': sum(storage.counts.values())}}
+
+
+def _partitioned_accumulators_mismatch(att, EE, DD):
+    try:
+        parts = np.asarray(att.partitions)
+        S, Q, C = np.asarray(att.sum), np.asarray(att.sum_square), np.asarray(att.counters)
+    except Exception:
+        return 'unobservable'
+    D = np.asarray(DD).reshape(len(DD), -1)
+    X = np.asarray(EE).astype('float64')
+    m, W, P = X.shape[1], D.shape[1], len(parts)
+    if S.shape != (m, W, P) or Q.shape != (m, W, P) or C.shape != (W, P):
+        return 'unobservable'
+    rs = np.zeros((m, W, P))
+    rq = np.zeros((m, W, P))
+    rc = np.zeros((W, P))
+    for ci, v in enumerate(parts.tolist()):
+        M = (D == v).astype('float64')             # rows x words
+        rc[:, ci] = M.sum(0)
+        rs[:, :, ci] = X.T @ M
+        rq[:, :, ci] = (X * X).T @ M
+    for name, got, want in (('counters', C, rc), ('sum', S, rs), ('sum_square', Q, rq)):
+        if not np.array_equal(got.astype('float64'), want.astype(got.dtype).astype('float64')):
+            bad = np.argwhere(got.astype('float64') != want.astype(got.dtype).astype('float64'))[0].tolist()
+            return '%s%s is %r, definition gives %r (classes %s)' % (name, bad, float(got[tuple(bad)]), float(want[tuple(bad)]), parts.tolist()[:12])
+    return None
 
 
 def _manual_prefix(scn, scared, K, sf, cont, bs, upto, final=False):
